@@ -170,6 +170,27 @@ def one_case(ctx, rng, alpha, seen, i):
         where = rng.random()
         s = s + junk if where < 0.5 else junk + s if where < 0.8 else s[:-1] + junk[:1]
         check_string(ctx, s, alpha, "junk_around_valid")
+    elif r == 6 and i % 16 == 14:  # a valid short string decorated the way canonical strings may be
+        s = model_encode(rng.getrandbits(128) if rng.random() < 0.7 else rng.getrandbits(60), alpha)
+        k = rng.randrange(8)
+        if k == 0:
+            s = "-" + s
+        elif k == 1:
+            s = s + "-"
+        elif k == 2:
+            p = rng.randrange(1, 22)
+            s = s[:p] + "-" + s[p:]
+        elif k == 3:
+            s = "-".join(s)
+        elif k == 4:
+            s = "-".join([s[:8], s[8:12], s[12:16], s[16:]])
+        elif k == 5:
+            s = "{" + s + "}"
+        elif k == 6:
+            s = "urn:uuid:" + s
+        else:
+            s = s[:11] + "--" + s[11:]
+        check_string(ctx, s, alpha, "decorated_short")
     elif r == 6:  # wrong length
         ln = rng.choice([x for x in range(0, 41) if x != 22])
         pool = alpha if rng.random() < 0.7 else alpha + FOREIGN + "0123456789abcdef-"
